@@ -238,7 +238,7 @@ func checkC19(p *Program, r *Report) {
 	if nMut < 2 {
 		r.Add("C19.pair", "-", fmt.Sprintf("vacuity: %d list mutation sites, floor 2", nMut), token.NoPos, false, "kind=below-floor")
 	}
-	r.Floor("C19.pair", 6)
+	r.Floor("C19.pair", 4)
 
 	// ---- C19.order
 	if fn := p.Func("coinset", "NewMsgTxWithInputCoins"); fn != nil {
@@ -405,19 +405,11 @@ func checkC19(p *Program, r *Report) {
 					if less == nil {
 						continue
 					}
-					// Less is a[i].Acc() < a[j].Acc()
-					for _, ret := range returnsOf(less) {
-						bo, ok := ret.Results[0].(*ssa.BinOp)
-						if !ok || bo.Op != token.LSS {
-							continue
-						}
-						_, ok1 := coinAccessorCall(bo.X, spec.acc)
-						_, ok2 := coinAccessorCall(bo.Y, spec.acc)
-						if ok1 && ok2 {
-							okSort = true
-						} else {
-							how = "comparator does not order by " + spec.acc + "()"
-						}
+					// Less is a[i].Acc() < a[j].Acc() (or the mirrored a[j].Acc() > a[i].Acc())
+					if lessAscendingBy(less, spec.acc) {
+						okSort = true
+					} else {
+						how = "comparator does not order ascending by " + spec.acc + "() (reversed for the sort)"
 					}
 				}
 				if cal := c.Call.StaticCallee(); cal != nil && cal == p.Func("coinset", "(MinIndexCoinSelector).CoinSelect") {
@@ -451,4 +443,39 @@ func checkC19(p *Program, r *Report) {
 func postDominates(fn *ssa.Function, a, b *ssa.BasicBlock) bool {
 	pd := postDominators(fn)
 	return pd[b][a]
+}
+
+// lessAscendingBy: every return of the comparator is acc(a[i]) < acc(a[j]) or acc(a[j]) > acc(a[i]).
+func lessAscendingBy(less *ssa.Function, acc string) bool {
+	rets := returnsOf(less)
+	if len(rets) == 0 || len(less.Params) != 3 {
+		return false
+	}
+	side := func(v ssa.Value) int {
+		cv, ok := coinAccessorCall(v, acc)
+		if !ok {
+			return -1
+		}
+		if elemIndexIs(cv, less.Params[1]) {
+			return 0
+		}
+		if elemIndexIs(cv, less.Params[2]) {
+			return 1
+		}
+		return -1
+	}
+	for _, ret := range rets {
+		bo, ok := ret.Results[0].(*ssa.BinOp)
+		if !ok {
+			return false
+		}
+		l, r := side(bo.X), side(bo.Y)
+		switch {
+		case bo.Op == token.LSS && l == 0 && r == 1:
+		case bo.Op == token.GTR && l == 1 && r == 0:
+		default:
+			return false
+		}
+	}
+	return true
 }
